@@ -17,11 +17,11 @@ fn mav(a: Act) -> Act {
 /// S1: ESR / ESE / SRE / MAV / error queue / common commands.
 pub fn s1(tier: Tier) -> Vec<Act> {
     let mut a = vec![];
-    let vals: Vec<u8> = tier.pick(vec![0, 1, 4, 16, 32, 255], vec![0, 1, 2, 4, 8, 16, 32, 64, 128, 255]);
+    let vals: Vec<u8> = tier.pick(vec![0, 1, 4, 16, 32, 255], vec![0, 1, 2, 4, 8, 16, 32, 64, 128, 255, 3, 48, 60, 191]);
     for &v in &vals {
         a.push(msg1(&format!("*ESE {v}"), U::EseSet(v)));
     }
-    let svals: Vec<u8> = tier.pick(vec![0, 4, 16, 32, 64, 255], vec![0, 4, 8, 16, 32, 64, 128, 255]);
+    let svals: Vec<u8> = tier.pick(vec![0, 4, 16, 32, 64, 255], vec![0, 4, 8, 16, 32, 64, 128, 255, 48, 96, 191]);
     for &v in &svals {
         a.push(msg1(&format!("*SRE {v}"), U::SreSet(v)));
     }
@@ -67,6 +67,24 @@ pub fn s1(tier: Tier) -> Vec<Act> {
     a.push(msg(vec![unit("*CLS", U::Cls), unit("*ESE?", U::EseQ), unit("*SRE?", U::SreQ), unit("*ESR?", U::Esr), unit("SYST:ERR:COUN?", U::ErrCount)]));
     a.push(msg(vec![unit("*RST", U::Rst), unit("*WAI", U::Wai), unit("*STB?", U::Stb), unit("*ESR?", U::Esr)]));
     a.push(msg(vec![unit("*TST?", U::Tst), unit("*OPC?", U::OpcQ)]));
+    // message-available is reported by the interface, not by the device: no command in front of
+    // *STB? inside the same message may change what *STB? reports for it
+    for (t, u) in [
+        ("*CLS", U::Cls),
+        ("*RST", U::Rst),
+        ("*WAI", U::Wai),
+        ("*OPC", U::Opc),
+        ("*OPC?", U::OpcQ),
+        ("*TST?", U::Tst),
+        ("*ESR?", U::Esr),
+        ("*ESE?", U::EseQ),
+        ("*SRE 16", U::SreSet(16)),
+        ("*ESE 32", U::EseSet(32)),
+        ("SYST:ERR?", U::ErrNext),
+        ("STAT:PRES", U::Preset),
+    ] {
+        a.push(mav(msg(vec![unit(t, u), unit("*STB?", U::Stb)])));
+    }
     a
 }
 
